@@ -161,7 +161,20 @@ def prove(run):
                     x.canonicalise()
                     x.compress(temp_m_trunc=[int(d) for d in x.bond_dims])      # entry i limits the bond above node i: nothing to cut
                     return x
+                def two_site_updates(percent):
+                    # renormalised-basis update of the two-site schemes (optimize_2site, tdvp_ps2) on every (node, parent) pair, centre kept on either side
+                    def f(x):
+                        # (full factorisations let every updated bond grow to its complete size: one pass, the side keeping the centre alternates)
+                        for i in range(1, len(x.node_list)):
+                            node = x.node_list[i]
+                            if node.parent is None:
+                                continue
+                            x.update_2site(node, x.merge_with_parent(node), m=10 ** 4, percent=percent, cano_parent=(i + (1 if percent else 0)) % 2 == 0)
+                        return x
+                    return f
                 kops = [("canonicalise", "TTNS.canonicalise", lambda x: (x.canonicalise(), x)[1]), ("lossless_compress", "TTNS.compress", lossless),
+                        ("two_site_update_of_every_bond", "TTNS.update_2site", two_site_updates(0)),
+                        ("two_site_update_of_every_bond_with_sector_perturbation", "TTNS.update_2site", two_site_updates(0.5)),
                         ("compress_with_per_bond_list_of_current_dims", "TTNS.compress", lossless_list),
                         ("push_centre_to_leaf_and_back", "TTNS.push_cano_to_child", push_round_trip),
                         ("sum_then_canonicalise", "TTNS.canonicalise", None)]
